@@ -235,7 +235,8 @@ def mutate_elf(data, raw, muts):
     return bytes(data)
 
 
-JUMP_SLOT = {(62, 7), (3, 7)}       # (e_machine, r_type): R_X86_64_JUMP_SLOT, R_386_JMP_SLOT
+# (e_machine, r_type): R_X86_64_JUMP_SLOT, R_386_JMP_SLOT, R_ARM_JUMP_SLOT, R_AARCH64_JUMP_SLOT, R_PPC_JMP_SLOT
+JUMP_SLOT = {(62, 7), (3, 7), (40, 22), (183, 1026), (20, 21)}
 
 
 def judge_elf(data, base_addr, do_preload, info=None):
@@ -406,7 +407,8 @@ class C44(Check):
     needs_build = True
     rule = ("PE: Hypothesis builder histories (vlib.binlab.pe_history, 32/64-bit, aligned and low-alignment layouts) x "
             "(align_s, load_hdr) -> vm_load_pe + preload_pe; ELF: per shard 3 (quick) / 12 (thorough) freshly linked gcc "
-            "executables / shared objects + 1-2 relocatable objects, each x Hypothesis variants (base_addr, PF_W toggles, reduced "
+            "executables / shared objects + one more recipe (mostly relocatable objects) + one of the four linked samples of "
+            "example/samples (ARM, AArch64, big-endian PowerPC, x86-64 PIE), each x Hypothesis variants (base_addr, PF_W toggles, reduced "
             "p_filesz, enlarged last p_memsz) -> vm_load_elf + preload_elf. Non-trivial: a section / segment with raw size < "
             "virtual size; distinct by (builder history | file hash + variant, loader options).")
     assumptions = [
@@ -416,7 +418,7 @@ class C44(Check):
         "aligned; otherwise the loader documents one RW mapping for the whole image) and for ELF only for segments that share "
         "no 4 KiB page with another PT_LOAD segment",
         "preload_elf has no base parameter: import slots are judged for base_addr = 0 only; big-endian ELF inputs are "
-        "relocatable objects (nothing to map); at most 8 descriptors x 5 functions per PE (stub-range exhaustion is C45)",
+        "relocatable objects (nothing to map) except the repository's md5_ppc32b executable; at most 8 descriptors x 5 functions per PE (stub-range exhaustion is C45)",
         "histories on which the PE builder itself fails (C42 findings) are dropped and counted",
     ]
     level_text = "generated-input search against independent file readers; no violation found is not a proof"
@@ -459,6 +461,9 @@ class C44(Check):
         ncases = 60 if tier == "thorough" else 10
         with binlab.Scratch("c44") as scratch:
             corpus = binlab.build_elf_corpus(scratch, "%d-%d" % (seed, shard), picks, res)
+        extra = binlab.repo_elf_sample(shard % 8)
+        if extra is not None:
+            corpus.append(extra)
         mut = st.tuples(st.integers(0, 7), st.integers(0, 2), st.integers(0, 0xFFFF))
         variant = st.tuples(st.sampled_from([0, 0, 0x10000000, 0x7F0000000000, 0x555555554000]),
                             st.lists(mut, max_size=3))
